@@ -536,3 +536,67 @@ pub fn drive_automata(a: &Args) {
 
 #[allow(dead_code)]
 fn unused(_: ClassId, _: T) {}
+
+// ------------------------------------------------------------------------------------------
+// Hopcroft refinement runs recorded through the cfg-guarded hooks (growth beyond the listed
+// properties: the private state machine of minimizer.rs is bound to spec/Hopcroft.tla)
+
+fn hop_events_json(evs: Vec<aws_smt_strings::verif_hooks::Event>) -> Vec<Value> {
+    use aws_smt_strings::verif_hooks::Event;
+    let inc = |v: &Vec<u32>| -> Vec<u32> { v.iter().map(|x| x + 1).collect() };
+    evs.into_iter()
+        .map(|e| match e {
+            Event::HopNew { n, m, delta, finals } => {
+                let d: Vec<Vec<u32>> = delta.iter().map(|r| r.iter().map(|x| x + 1).collect()).collect();
+                json!({"k":"new","n":n,"m":m,"delta":d,"final":finals})
+            }
+            Event::HopState { what, blocks, active } => {
+                let b: Vec<Vec<u32>> = blocks.iter().map(inc).collect();
+                let a: Vec<Value> = active.iter().map(|(blk, c)| json!({"b": inc(blk), "c": c + 1})).collect();
+                json!({"k":"state","what":what,"blocks":b,"active":a})
+            }
+            Event::HopPick { block, ch, pred } => json!({"k":"pick","b":inc(&block),"c":ch + 1,"pred":inc(&pred)}),
+        })
+        .collect()
+}
+
+fn hop_record(d: &AbsDfa, style: usize) -> Value {
+    use aws_smt_strings::verif_hooks;
+    let r = guarded(|| -> Result<Vec<Value>, String> {
+        let mut a = build_abs(d, style)?;
+        verif_hooks::record(true);
+        a.minimize();
+        let evs = verif_hooks::drain();
+        verif_hooks::record(false);
+        Ok(hop_events_json(evs))
+    });
+    aws_smt_strings::verif_hooks::record(false);
+    match r {
+        Ok(Ok(evs)) => json!({"op":"hopcroft","abs":abs_json(d),"style":style,"events":evs}),
+        Ok(Err(e)) => json!({"op":"build_failed","err":e}),
+        Err(msg) => json!({"op":"panic","where":"minimize (hooked)","msg":msg,"abs":abs_json(d)}),
+    }
+}
+
+/// refinement traces for TLC-generated DFAs (--scen) and for random DFAs
+pub fn drive_hopcroft(a: &Args) {
+    let mut rng = Rng::new(a.seed ^ 0x40B);
+    let mut out = Out::create(&a.out, "hopcroft.ndjson");
+    if let Some(path) = arg(a, "--scen") {
+        for (k, sc) in read_lines(&path).iter().enumerate() {
+            let delta: Vec<Vec<usize>> = sc["delta"].as_array().unwrap().iter().map(|r| r.as_array().unwrap().iter().map(|x| x.as_u64().unwrap() as usize - 1).collect()).collect();
+            let finals: Vec<bool> = sc["final"].as_array().unwrap().iter().map(|x| x.as_bool().unwrap()).collect();
+            let nl = delta[0].len() as u32;
+            let lay = Layout::new(nl - 1, &mut rng, true);
+            let letters: Vec<(u32, u32)> = (0..nl).map(|i| (lay.lo(i), lay.hi(i))).collect();
+            let d = AbsDfa { n: delta.len(), letters, delta, finals };
+            out.emit(hop_record(&d, k % 3));
+        }
+    }
+    for k in 0..a.sz(1200, 30000) {
+        let d = if k % 3 == 0 { random_abs(&mut rng, 5, 3) } else { random_abs(&mut rng, 10, 4) };
+        out.emit(hop_record(&d, k % 3));
+    }
+    let n = out.finish();
+    println!("{{\"family\":\"hopcroft\",\"events\":{}}}", n);
+}
